@@ -72,6 +72,12 @@ namespace sqf::runtime
         }
         void push_frame(sqf::runtime::frame frame)
         {
+            // Globals are resolved in the namespace of the innermost enclosing `with ns do`: a frame that did not
+            // select its namespace itself (call, loop bodies, ...) continues in the one of the frame it is nested in.
+            if (!m_frames.empty() && !frame.globals_selected() && m_frames.back().globals_value_scope())
+            {
+                frame.globals_value_scope(m_frames.back().globals_value_scope());
+            }
             m_frames.push_back(frame);
             m_frames.back().value_stack_pos(m_values.size());
 #ifdef DF__SQF_RUNTIME__ASSEMBLY_DEBUG_ON_EXECUTE
